@@ -24,6 +24,26 @@ def fnum(x):
     return str(x)
 
 
+def _enc(x):
+    if isinstance(x, F):
+        return {"__F__": str(x)}
+    if isinstance(x, dict):
+        return {k: _enc(v) for k, v in x.items()}
+    if isinstance(x, (list, tuple)):
+        return [_enc(v) for v in x]
+    return x
+
+
+def _dec(x):
+    if isinstance(x, dict):
+        if "__F__" in x:
+            return F(x["__F__"])
+        return {k: _dec(v) for k, v in x.items()}
+    if isinstance(x, list):
+        return [_dec(v) for v in x]
+    return x
+
+
 class Scen:
     """One self-contained scenario: its own hosts/links/disks/activities/events, all named with the prefix self.p so that
     several scenarios can share one simulation (same global configuration) without sharing any resource."""
@@ -42,11 +62,11 @@ class Scen:
         return self
 
     def to_json(self):
-        return {"id": self.id, "lines": self.lines, "meta": self.meta}
+        return {"id": self.id, "lines": self.lines, "meta": _enc(self.meta)}
 
     @staticmethod
     def from_json(d):
-        s = Scen(d["id"], d.get("meta"))
+        s = Scen(d["id"], _dec(d.get("meta")))
         s.lines = list(d["lines"])
         return s
 
@@ -166,9 +186,59 @@ def run_cases(cases, tag="res", workers=None, timeout=20):
     with ThreadPoolExecutor(max_workers=n) as ex:
         outs = list(ex.map(one, range(n)))
     res = {}
-    for o in outs:
-        res.update(parse_output(o))
+    if sum(len(o) for o in outs) > 4_000_000:          # big sampled outputs: parse in worker processes
+        for d_ in common.pmap(parse_output, outs):
+            res.update(d_)
+    else:
+        for o in outs:
+            res.update(parse_output(o))
     return res
+
+
+def _shard_work(args):
+    """Worker process: run one shard through the harness, parse, judge every scenario. Returns
+    [(case id, status, [(scen id, fails, nontrivial, note)], observed acts of the case)]."""
+    cases, judge, tag, timeout, idx = args
+    d = common.tmpdir(tag)
+    p = os.path.join(d, "shard-%d-%d-%d.txt" % (os.getpid(), idx, int(time.time() * 1e6) % 10**9))
+    with open(p, "w") as f:
+        for c in cases:
+            f.write(c.text())
+    env = dict(os.environ, RES_TIMEOUT=str(timeout))
+    r = subprocess.run([harness(), p], stdout=subprocess.PIPE, stderr=subprocess.STDOUT, text=True, env=env, errors="replace")
+    os.unlink(p)
+    try:
+        os.rmdir(d)
+    except OSError:
+        pass
+    res = parse_output(r.stdout)
+    out = []
+    for c in cases:
+        rr = res.get(c.id)
+        if rr is None:
+            out.append((c.id, None, [], {}))
+            continue
+        if rr["status"] != "exit=0" and len(c.scens) > 1:
+            out.append((c.id, rr["status"], None, {}))          # to be split by the caller
+            continue
+        verdicts = [(sc.id,) + tuple(judge(sc, rr, c)) for sc in c.scens]
+        obs = {k: {"start": v.get("start"), "finish": v.get("finish"), "state": v.get("state")} for k, v in rr["acts"].items()}
+        out.append((c.id, rr["status"], verdicts, obs))
+    return out
+
+
+def run_and_judge(cases, judge, tag="res", timeout=30):
+    cases = list(cases)
+    if not cases:
+        return {}
+    harness()
+    n = min(common.NCPU, len(cases))
+    shards = [(cases[i::n], judge, tag, timeout, i) for i in range(n)]
+    out = {}
+    for part in common.pmap(_shard_work, shards, workers=n):
+        for cid, status, verdicts, obs in part:
+            out[cid] = (status, verdicts, obs)
+    return out
 
 
 def cleanup(tag="res"):
@@ -233,6 +303,93 @@ def maxmin(variables, constraints):
     return rate
 
 
+def fluid(acts, resources, events=(), horizon=None):
+    """Exact fluid (piecewise-constant rates) reference for small workloads.
+    acts: list of dict(id, start, cost, penalty=1, bound=None, uses={resource: weight}, latency=0)
+    resources: {name: dict(cap, fat=False)}
+    events: list of (date, op, target, value) with op in suspend|resume|bound|prio|cap|fail (fail = resource off: its
+            running activities end FAILED at that date, later ones fail at their start)
+    Returns (result {id: dict(start, finish, state)}, timeline [(t0, t1, {id: rate})])."""
+    acts = {a["id"]: dict(a) for a in acts}
+    res = {k: dict(v) for k, v in resources.items()}
+    for a in acts.values():
+        a.setdefault("penalty", F(1)); a.setdefault("bound", None); a.setdefault("latency", F(0))
+        a["rem"] = F(a["cost"]); a["state"] = "PENDING"; a["susp"] = False; a["finish"] = None
+        a["consume_from"] = None
+    evs = sorted([(F(d), i, op, tg, val) for i, (d, op, tg, val) in enumerate(events)])
+    off = set()
+    t = F(0)
+    timeline = []
+    ei = 0
+    guard = 0
+    while True:
+        guard += 1
+        assert guard < 10000
+        # things happening at t: starts first (declaration order), then events, as the harness controller does
+        for a in acts.values():
+            if a["state"] == "PENDING" and F(a["start"]) == t:
+                if any(r in off for r in a["uses"]):
+                    a["state"], a["finish"] = "FAILED", t
+                else:
+                    a["state"] = "RUNNING"
+                    a["consume_from"] = t + F(a["latency"])
+        while ei < len(evs) and evs[ei][0] == t:
+            _, _, op, tg, val = evs[ei]
+            ei += 1
+            if op == "suspend":
+                if acts[tg]["state"] == "RUNNING": acts[tg]["susp"] = True
+            elif op == "resume":
+                acts[tg]["susp"] = False
+            elif op == "bound":
+                acts[tg]["bound"] = F(val)
+            elif op == "prio":
+                acts[tg]["penalty"] = 1 / F(val)
+            elif op == "cap":
+                res[tg]["cap"] = F(val)
+            elif op == "fail":
+                off.add(tg)
+                for a in acts.values():
+                    if a["state"] == "RUNNING" and tg in a["uses"]:
+                        a["state"], a["finish"] = "FAILED", t
+            elif op == "restore":
+                off.discard(tg)
+        run = [a for a in acts.values() if a["state"] == "RUNNING" and not a["susp"] and a["consume_from"] <= t]
+        variables = {a["id"]: (F(a["penalty"]), a["bound"]) for a in run}
+        cons = []
+        for rn, r in res.items():
+            w = {a["id"]: F(a["uses"][rn]) for a in run if a["uses"].get(rn, 0)}
+            if w:
+                cons.append((F(r["cap"]), w, bool(r.get("fat"))))
+        rates = maxmin(variables, cons) if run else {}
+        # next date
+        cand = []
+        for a in acts.values():
+            if a["state"] == "PENDING":
+                cand.append(F(a["start"]))
+            elif a["state"] == "RUNNING" and a["consume_from"] > t:
+                cand.append(a["consume_from"])
+        if ei < len(evs):
+            cand.append(evs[ei][0])
+        for a in run:
+            if rates[a["id"]] > 0:
+                cand.append(t + a["rem"] / rates[a["id"]])
+        if horizon is not None and t < F(horizon):
+            cand.append(F(horizon))
+        if not cand:
+            break
+        t1 = min(cand)
+        timeline.append((t, t1, dict(rates)))
+        for a in run:
+            a["rem"] -= rates[a["id"]] * (t1 - t)
+            if a["rem"] == 0:
+                a["state"], a["finish"] = "FINISHED", t1
+        t = t1
+        if all(a["state"] in ("FINISHED", "FAILED") for a in acts.values()) and ei >= len(evs) and \
+                (horizon is None or t >= F(horizon)):
+            break
+    return {k: {"start": F(a["start"]), "finish": a["finish"], "state": a["state"]} for k, a in acts.items()}, timeline
+
+
 # ------------------------------------------------------------------------------------------------ generic driver
 def close(a, b, rel=1e-9, abs_=1e-9):
     """|a-b| <= rel*|b| + abs_ with b the exact reference (Fraction or float)."""
@@ -275,28 +432,31 @@ def drive(ctx, bounds, judge, level="exploration", engine="E4 res", rule="", ass
         if ctx.seed:
             import random
             random.Random(ctx.seed).shuffle(cases)
-        res = run_cases(cases, tag=tag, timeout=timeout)
+        res = run_and_judge(cases, judge, tag=tag, timeout=timeout)
         simulations += len(cases)
         nfail = nsc = 0
-        todo = []
+        byid = {c.id: c for c in cases}
+        split = []
         for c in cases:
-            r = res.get(c.id)
-            if r is None:
+            status, verdicts, obs = res[c.id]
+            if status is None:
                 common.log("verif: harness produced no output for case %s" % c.id)
                 raise SystemExit(2)
-            if r["status"] != "exit=0" and len(c.scens) > 1:
-                singles = [c.single(sc) for sc in c.scens]          # find the culprit(s)
-                rs = run_cases(singles, tag=tag, timeout=timeout)
-                simulations += len(singles)
-                todo += [(s1, rs[s1.id]) for s1 in singles]
-            else:
-                todo.append((c, r))
-        for c, r in todo:
-            for sc, fails, nt, note in _judge_all(c, r, judge):
+            if verdicts is None:
+                split += [c.single(sc) for sc in c.scens]          # the simulation crashed: find the culprit(s)
+        if split:
+            res.update(run_and_judge(split, judge, tag=tag, timeout=timeout))
+            simulations += len(split)
+            byid.update({c.id: c for c in split})
+        for cid, (status, verdicts, obs) in res.items():
+            if verdicts is None:
+                continue
+            c = byid[cid]
+            for sc, (sid, fails, nt, note) in zip(c.scens, verdicts):
                 evaluations += 1
                 nsc += 1
                 if nt:
-                    nontrivial.add((name, sc.id) if nt is True else nt)
+                    nontrivial.add((cid, sid) if nt is True else nt)
                 if note:
                     notes[note] = notes.get(note, 0) + 1
                 if fails:
@@ -304,8 +464,7 @@ def drive(ctx, bounds, judge, level="exploration", engine="E4 res", rule="", ass
                     failing.append((c, sc, fails))
                 if len(samples) < 6 and nsc % 97 == 1:
                     samples.append({"cfg": c.cfg, "scenario": sc.lines,
-                                    "observed": {k: {"start": v.get("start"), "finish": v.get("finish"), "state": v.get("state")}
-                                                 for k, v in r["acts"].items() if k.startswith(sc.p)}})
+                                    "observed": {k: v for k, v in obs.items() if k.startswith(sc.p)}})
         per_bound[name] = {"simulations": len(cases), "scenarios": nsc, "failing": nfail, "wall_s": round(time.time() - t0, 1)}
         done.append(name)
     # confirm violations: each is re-run alone twice (all re-runs of a round in parallel) and must fail identically;
